@@ -17,6 +17,10 @@ BASES = [
     [("spawn", 1, 3), ("scope", 9, [("spawn", 2, 2), ("scope", 8, [("spawn", 3, 2)])])],
     [("sus", 1, [("task", 1, 3), ("scope", 9, [("task", 2, 2)]), ("sus", 2, [("task", 3, 1), ("scope", 8, [("task", 4, 2)])])])],
     [("scope", 9, [("task", 1, 2), ("sus", 1, [("scope", 8, [("task", 2, 2), ("spawn", 3, 1)])])])],
+    # resources read while loading: the guards are held by a signal of the scope that is disposed
+    [("sus", 1, [("scope", 9, [("res", 1, 2)]), ("task", 2, 1)])],
+    [("scope", 9, [("sus", 1, [("res", 1, 1), ("sus", 2, [("scope", 8, [("res", 2, 2), ("task", 3, 1)])])])])],
+    [("sus", 1, [("scope", 9, [("res", 1, 1), ("scope", 8, [("res", 2, 2)])])]), ("scope", 7, [("res", 3, 1)])],
 ]
 
 
@@ -97,7 +101,7 @@ def main(argv):
     chk.trusted = ["Coq 8.16.1 kernel + vm_compute", "hand-written LTS coq/theories/Async/Suspense.v tied to sycamore-futures by this correspondence run",
                    "harness/futures-driver (instrumented futures log every poll; panic hook sees panics swallowed by tokio)", "tools/asyncgen.py, tools/c14.py",
                    "modelled, not verified: tokio LocalSet, futures::Abortable, oneshot"]
-    chk.rule = ("fault enumeration: 5 base trees of scopes / suspense boundaries (depth <= 3) with tasks of 1-3 chained awaits; for several orders of the "
+    chk.rule = ("fault enumeration: 11 base trees of scopes / suspense boundaries (depth <= 3) with tasks, plain spawned futures and resources (sycamore-web Resource read while loading) of 1-3 chained awaits; for several orders of the "
                 "awaits, a scope disposal inserted at EVERY position of the schedule for EVERY scope (pairs of disposals in thorough); the executor is "
                 "drained at the end; non-trivial = the disposal hit a scope with a pending task; distinct = distinct (tree, schedule)")
     ok, msg = vlib.proof_step(chk, "C14", ["theories/Props/C14.vo"], THEOREMS)
